@@ -12,7 +12,12 @@ pub fn pmap_of(line: &Value) -> Vec<usize> {
     }
 }
 
-pub fn scale(s: i64) -> f32 { (2.0f64).powi(s as i32) as f32 }
+/// Tick length in seconds for a scale code: 2^s, except the two codes of the tolerance passes of the
+/// animator replay - TENTH (0.1 s: cycle totals that are not f32 multiples of the cycle) and SUBMICRO
+/// (512 ns: frames shorter than a microsecond).
+pub const TENTH: i64 = 1000;
+pub const SUBMICRO: i64 = 1001;
+pub fn scale(s: i64) -> f32 { match s { TENTH => 0.1, SUBMICRO => 5.12e-7, _ => (2.0f64).powi(s as i32) as f32 } }
 
 /// Builds the timeline described by a cfg object {kfs, de, tm} at `tick = 2^s` seconds.
 pub fn build_tl(cfg: &Value, pd: i64, pmap: &[usize], s: i64) -> P4Timeline {
@@ -24,8 +29,20 @@ pub static VSCALE_BITS: std::sync::atomic::AtomicU32 = std::sync::atomic::Atomic
 pub fn vscale() -> f32 { f32::from_bits(VSCALE_BITS.load(std::sync::atomic::Ordering::Relaxed)) }
 pub fn set_vscale(v: f32) { VSCALE_BITS.store(v.to_bits(), std::sync::atomic::Ordering::Relaxed); }
 
+/// Variants of a described timeline that the specification says are equivalent (or differ in one known value).
+#[derive(Default, Clone, Copy)]
+pub struct Variant {
+    /// (insertion index, copies): the keyframe is added `copies` more times directly after itself
+    /// (MC_Keyframes!DupNeutral: such a keyframe takes no part in anything)
+    pub dup: Option<(usize, usize)>,
+    /// (value, replacement) for the i32 property at the 100% keyframe
+    pub big100: Option<(i64, i32)>,
+}
+
 /// The un-built builder (TimelineConfiguration) for the same description.
-pub fn config_tl(cfg: &Value, pd: i64, pmap: &[usize], s: i64) -> TimelineConfiguration<P4KeyframeData> {
+pub fn config_tl(cfg: &Value, pd: i64, pmap: &[usize], s: i64) -> TimelineConfiguration<P4KeyframeData> { config_tl_var(cfg, pd, pmap, s, Variant::default()) }
+
+pub fn config_tl_var(cfg: &Value, pd: i64, pmap: &[usize], s: i64, var: Variant) -> TimelineConfiguration<P4KeyframeData> {
     let tm = &cfg["tm"];
     let tick = scale(s);
     let mut b = P4::timeline()
@@ -34,17 +51,21 @@ pub fn config_tl(cfg: &Value, pd: i64, pmap: &[usize], s: i64) -> TimelineConfig
         .repeat(repeat_of(tm["rep"].as_i64().unwrap()))
         .reverse(tm["rev"].as_bool().unwrap())
         .default_easing(easing(cfg["de"].as_i64().unwrap()));
-    for kf in cfg["kfs"].as_array().unwrap() {
-        let mut k = P4::keyframe(kf["pos"].as_i64().unwrap() as f32 / pd as f32);
-        for (i, d) in kf["d"].as_array().unwrap().iter().enumerate() {
-            if let Some(v) = d.as_array().unwrap().first() {
-                let v = v.as_i64().unwrap();
-                k = match pmap[i] { 1 => k.x(v as f32 * vscale()), 2 => k.y(v as f32 * vscale()), 3 => k.n(v as i32), 4 => k.m(v as i16), _ => unreachable!() };
+    for (ki, kf) in cfg["kfs"].as_array().unwrap().iter().enumerate() {
+        let copies = match var.dup { Some((j, n)) if j == ki => n + 1, _ => 1 };
+        for _ in 0..copies {
+            let mut k = P4::keyframe(kf["pos"].as_i64().unwrap() as f32 / pd as f32);
+            for (i, d) in kf["d"].as_array().unwrap().iter().enumerate() {
+                if let Some(v) = d.as_array().unwrap().first() {
+                    let v = v.as_i64().unwrap();
+                    let n = match var.big100 { Some((orig, big)) if orig == v && kf["pos"].as_i64().unwrap() == pd => big, _ => v as i32 };
+                    k = match pmap[i] { 1 => k.x(v as f32 * vscale()), 2 => k.y(v as f32 * vscale()), 3 => k.n(n), 4 => k.m(v as i16), _ => unreachable!() };
+                }
             }
+            let e = kf["e"].as_i64().unwrap();
+            if e != 0 { k = k.easing(easing(e)); }
+            b = b.keyframe(k);
         }
-        let e = kf["e"].as_i64().unwrap();
-        if e != 0 { k = k.easing(easing(e)); }
-        b = b.keyframe(k);
     }
     b
 }
@@ -60,6 +81,9 @@ pub fn start_values(ov: &Value, pmap: &[usize]) -> Option<P4> {
     }
     Some(v)
 }
+
+pub const DUP_COPIES: usize = 66000;
+pub const DUP_EVERY: usize = 24;
 
 type Counts = std::collections::BTreeMap<String, u64>;
 pub struct Tally { pub lines: u64, pub evals: u64, pub by_class: Counts, pub mism_by_class: Counts, pub tags: Counts, pub mism: Vec<Value>, pub nmism: u64 }
@@ -177,6 +201,62 @@ pub fn replay_tl_line(tally: &mut Tally, lineno: usize, line: &Value, scales: &[
         match r {
             Ok(local) => tally.absorb(local),
             Err(_) => tally.miss(json!({"line": lineno, "scale": "values scaled towards f32::MAX", "class": "panic"})),
+        }
+    }
+    // one keyframe repeated DUP_COPIES times (more than 2^16 frames of one property): by the specification the copies
+    // take no part in anything (DupNeutral), so every prediction of the line stands
+    let nk = pos.len();
+    // (copies of a 0% keyframe are not neutral under a substituted start value, which replaces the first one only)
+    let dup_ok: Vec<usize> = (0..nk).filter(|&i| pos[i] > 0 || !has_ov).collect();
+    if nk >= 2 && lineno % DUP_EVERY == 0 && !dup_ok.is_empty() {
+        let j = dup_ok[(lineno / DUP_EVERY) % dup_ok.len()];
+        tally.tag("lines_with_66000_copies_of_one_keyframe");
+        let r = catch_unwind(AssertUnwindSafe(|| {
+            let mut local = Tally::new();
+            let mut tl = config_tl_var(line, pd, &pmap, 0, Variant { dup: Some((j, DUP_COPIES)), big100: None }).build();
+            if let Some(v) = start_values(&line["ov"], &pmap) { tl.start_with(&v); }
+            check_timeline(&mut local, lineno, 2000 + j as i64, line, &tl, &|t| t as f32, &pmap);
+            local
+        }));
+        match r {
+            Ok(local) => tally.absorb(local),
+            Err(e) => { let msg = e.downcast_ref::<String>().cloned().or_else(|| e.downcast_ref::<&str>().map(|s| s.to_string())).unwrap_or_default();
+                        tally.miss(json!({"line": lineno, "scale": "one keyframe repeated 66000 times", "class": "panic", "panic": msg})); }
+        }
+    }
+    // an i32 value beyond 2^24 (not an f32 number) at a 100% keyframe that is alone at 100%: wherever the
+    // specification predicts exactly that keyframe's value (peak of every pass, at and after the end) it is exact
+    if let Some(ni) = pmap.iter().position(|&p| p == 3) {
+        let kfs = line["kfs"].as_array().unwrap();
+        let at100: Vec<&Value> = kfs.iter().filter(|k| k["pos"].as_i64().unwrap() == pd).collect();
+        if at100.len() == 1 && !at100[0]["d"][ni].as_array().unwrap().is_empty() {
+            let orig = at100[0]["d"][ni][0].as_i64().unwrap();
+            let big: i32 = if orig < 0 { -16777217 - orig.unsigned_abs() as i32 * 2 } else { 16777217 + orig as i32 * 2 };
+            tally.tag("lines_with_i32_beyond_2^24_at_100%");
+            let r = catch_unwind(AssertUnwindSafe(|| {
+                let mut local = Tally::new();
+                let mut tl = config_tl_var(line, pd, &pmap, 0, Variant { dup: None, big100: Some((orig, big)) }).build();
+                if let Some(v) = start_values(&line["ov"], &pmap) { tl.start_with(&v); }
+                let ts = line.get("ts").and_then(|c| c.as_array());
+                for (ti, exp) in line["evals"].as_array().unwrap().iter().enumerate() {
+                    let alts = exp[ni].as_array().unwrap();
+                    if !(alts.len() == 1 && alts[0][0] == "i" && alts[0][1].as_i64() == Some(orig)) { continue; }
+                    let t = ts.map(|a| a[ti].as_i64().unwrap()).unwrap_or(ti as i64);
+                    let mut target = SENT.clone();
+                    tl.update(&mut target, t as f32);
+                    local.evals += 1;
+                    *local.by_class.entry("end-exact-i32".into()).or_insert(0) += 1;
+                    if target.n != big {
+                        local.miss(json!({"line": lineno, "scale": "i32 beyond 2^24 at the 100% keyframe", "t": t, "prop": 3, "class": line["cls"][ti][ni], "expected": big, "got": target.n, "what": "update"}));
+                    }
+                }
+                local
+            }));
+            match r {
+                Ok(local) => tally.absorb(local),
+                Err(e) => { let msg = e.downcast_ref::<String>().cloned().or_else(|| e.downcast_ref::<&str>().map(|s| s.to_string())).unwrap_or_default();
+                            tally.miss(json!({"line": lineno, "scale": "i32 beyond 2^24 at the 100% keyframe", "class": "panic", "panic": msg})); }
+            }
         }
     }
     for m in tally.mism.iter_mut().skip(before) {
